@@ -156,6 +156,11 @@ func (di *docValueReader) loadDvChunk(chunkNumber uint64, s *Segment) error {
 	}
 	chunkMetaLoc := destChunkDataLoc + uint64(read)
 
+	// the cached header is overwritten entry by entry below: until the new chunk
+	// is completely loaded the reader holds no chunk, so that a failed load is
+	// retried instead of pairing a half-written header with the old chunk's data
+	di.curChunkNum = math.MaxInt64
+
 	offset := uint64(0)
 	if cap(di.curChunkHeader) < int(numDocs) {
 		di.curChunkHeader = make([]metaData, int(numDocs))
